@@ -291,6 +291,9 @@ func (t *Transformer) Check() []ContractViolation {
 					}
 				}
 			case "pass":
+				if produced(o) && in.Err && !o.Val.Err {
+					add("err", in, o, "a pass-through stage answers without the error it received")
+				}
 				if produced(o) && (o.Val.M != in.M || o.Val.Err != in.Err) {
 					add("bool", in, o, "a pass-through stage changes the decision from "+in.String()+" to "+o.Val.String())
 				}
